@@ -115,10 +115,10 @@ theorem chain_built (steps : List ChainStep) :
                  | nil => simp [chainOpsFrom]
                  | cons a l ih => intro s md; simp [chainOpsFrom, ih]
                exact absurd h (this _ _ _ _)))
-  have h0 : (step St.init (.dataset "Any")).streams[0]? =
+  have h0 : (step St.init (.dataset "Any" [])).streams[0]? =
       some { root := 0, itemType := "Any", path := [], ds := 0, tm := fcall "EventDataset" [] } := by
     simp [step, St.init]
-  obtain ⟨last, hl, ht⟩ := chainOpsFrom_tm steps (step St.init (.dataset "Any")) 0 _ h0 (by simp [step, St.init])
+  obtain ⟨last, hl, ht⟩ := chainOpsFrom_tm steps (step St.init (.dataset "Any" [])) 0 _ h0 (by simp [step, St.init])
   refine ⟨last, ?_, ?_⟩
   · simpa [run, chainOps] using hl
   · have hmem : last ∈ (run (chainOps steps)).streams := by
